@@ -206,14 +206,13 @@ theorem C18_lang_complete_of_repair (v : Variant) (hv : v.lastRow = true) (i : N
 
 example : Variant.repaired.lastRow = true := rfl
 
-/- FULL STRENGTH — false on the current tree (defect D14, witness below); holds as soon as `Gen.Lang.lastRow = true`:
-
-  theorem C18_lang_complete (i : Nat) (hi : i < Gen.Lang.languages.length) :
-      ∃ ts, tagsFromLanguage tree Gen.Lang.languages[i].1 = .ok ts ∧
-        ts.head? = firstRegistered Gen.Lang.languages Gen.Lang.languages[i].1 :=
-    C18_lang_complete_of_repair treeVariant (by decide) i hi
-  example : 0 < Gen.Lang.languages.length := by decide +kernel
--/
+/-- FULL STRENGTH (holds since the repair of D14, `Gen.Lang.lastRow = true`): every row of the language table reaches
+    the tag registered first for its language. -/
+theorem C18_lang_complete (i : Nat) (hi : i < Gen.Lang.languages.length) :
+    ∃ ts, tagsFromLanguage tree Gen.Lang.languages[i].1 = .ok ts ∧
+      ts.head? = firstRegistered Gen.Lang.languages Gen.Lang.languages[i].1 :=
+  C18_lang_complete_of_repair treeVariant (by decide) i hi
+example : 0 < Gen.Lang.languages.length := by decide +kernel
 
 /-- Every row except the last one reaches the tag registered first for its language (any variant). -/
 theorem C18_lang_complete_partial (i : Nat) (hi : i + 1 < Gen.Lang.languages.length) :
@@ -222,13 +221,6 @@ theorem C18_lang_complete_partial (i : Nat) (hi : i + 1 < Gen.Lang.languages.len
   lang_complete treeVariant C18_lang_sorted C18_rules_ascii (C18_lang_norule _) i (by omega) (Or.inr hi)
 
 example : 5 + 1 < Gen.Lang.languages.length := by decide +kernel
-
-/-- D14: the language of the last table row (`zzj`, registered tag `ZHA `) gets no tag at all. -/
-theorem known_C18_lang_complete_last_row :
-    Gen.Lang.languages.getLast? = some (asc "zzj", fromBytesLossy (asc "ZHA ")) ∧
-    firstRegistered Gen.Lang.languages (asc "zzj") = some (fromBytesLossy (asc "ZHA ")) ∧
-    tagsFromLanguage tree (asc "zzj") = .ok [] ∧
-    tagsApi tree none (some (asc "zzj")) = .ok ([], []) := by decide +kernel
 
 /-- Case does not matter: the entry point lower-cases the language (`Language::from_str`), so any re-casing of
     the ASCII letters of a string gives the same tags (or the same panic). -/
@@ -328,13 +320,11 @@ theorem C01_tag_total_of_repairs (v : Variant) (h1 : v.cmpBytes = true) (h2 : v.
 example : Variant.repaired.cmpBytes = true ∧ Variant.repaired.strncmpBytes = true ∧
     validUtf8 [97, 45, 195, 169] /- a-é -/ = true ∧ validUtf8 [114, 97, 195, 169] /- raé -/ = true := by decide
 
-/- FULL STRENGTH — false on the current tree (defects D10, D10b, witnesses below); holds as soon as
-   `Gen.Lang.cmpBytes = true` and `Gen.Lang.strncmpBytes = true`:
-
-  theorem C01_tag_total (script : Option Tag) (lang : Option Bytes) (hw : ∀ s, lang = some s → validUtf8 s = true) :
-      ∃ r, tagsApi tree script lang = .ok r :=
-    C01_tag_total_of_repairs treeVariant (by decide) (by decide) script lang hw
--/
+/-- FULL STRENGTH (holds since the repairs of D10 and D10b): tag selection returns for every script and every valid
+    UTF-8 language string. -/
+theorem C01_tag_total (script : Option Tag) (lang : Option Bytes) (hw : ∀ s, lang = some s → validUtf8 s = true) :
+    ∃ r, tagsApi tree script lang = .ok r :=
+  C01_tag_total_of_repairs treeVariant (by decide) (by decide) script lang hw
 
 /-- On the tree as it is: no panic for any script and any ASCII language string. -/
 theorem C01_tag_total_partial (script : Option Tag) (lang : Option Bytes) (ha : ∀ s, lang = some s → Ascii s) :
@@ -354,15 +344,5 @@ theorem C01_tag_total_partial (script : Option Tag) (lang : Option Bytes) (ha : 
         ⟨hasc.wf, Or.inr hasc⟩
 
 example : Ascii (asc "zh-Hant-HK") := by intro x hx; simp [asc] at hx; omega
-
-/-- D10: the valid UTF-8 language `a-é` panics in `lang_cmp` (`&s2[..3]` is inside `é`). -/
-theorem known_C01_tag_total_lang_cmp :
-    tagsApi tree none (some [97, 45, 195, 169]) = .error .slice ∧
-    langCmp treeVariant (asc "aae") [97, 45, 195, 169] = .error .slice := by decide +kernel
-
-/-- D10b: the valid UTF-8 language `raé` panics in `tag_table::strncmp` (`&s1[..2]` of `aé` is inside `é`). -/
-theorem known_C01_tag_total_strncmp :
-    tagsApi tree none (some [114, 97, 195, 169]) = .error .slice ∧
-    strncmp treeVariant [97, 195, 169] (asc "o-") 2 = .error .slice := by decide +kernel
 
 end RbModel.Tag
